@@ -17,7 +17,7 @@ ID = "C11"
 BUDGET = {"quick": 5000, "thorough": 100000}
 MIN_NONTRIVIAL = {"quick": 300, "thorough": 3000}
 RULE = (
-    "two case families. size: one memref.alloc in L1 with a seeded type (row-major or #tsl.tsl with padding/gaps/offset, element widths "
+    "two case families (size2 = size with two dynamic dimensions of different run-time extents). size: one memref.alloc in L1 with a seeded type (row-major or #tsl.tsl with padding/gaps/offset, element widths "
     "8..64, rank 1-4, tile depth 1-3, optionally a dynamic outermost bound of one dimension (any) resolved at run time) is lowered by memref-to-snax; the emitted size "
     "arithmetic is executed and the snax.alloc size operand must be >= highest byte address the layout can touch + 1 (independent layout "
     "oracle). place: functions with 1-12 L1 allocs (different sizes, element types, alignments) at top level, subviews, casts and tagged uses "
@@ -31,6 +31,17 @@ RULE = (
 
 
 def gen_case(rng, tier):
+    if rng.random() < 0.08:
+        # size family with two dynamic dimensions (different run-time extents): static steps laid out for a capacity
+        rank = rng.choice([2, 2, 3])
+        tb = [[rng.choice([2, 3, 4])] + [rng.choice([1, 2, 2, 4]) for _ in range(rng.choice([0, 0, 1]))] for _ in range(rank)]
+        dd = sorted(rng.sample(range(rank), 2))
+        kind = rng.choice(["tsl", "tsl", "none"])
+        case = {"fam": "size2", "tb": tb, "el": rng.choice(list(EL)), "kind": kind, "dyn_dims": dd, "off": 0, "dyn_bounds": [rng.randint(1, tb[d][0]) for d in dd]}
+        if kind == "tsl":
+            case["steps"] = gen_steps(rng, tb, pad=rng.random() < 0.6)
+            case["off"] = rng.choice([0, 0, 5])
+        return case
     if rng.random() < 0.4:
         rank = rng.choice([1, 2, 2, 3, 4])
         depth = [rng.choice([1, 2, 2, 3]) for _ in range(rank)]
@@ -81,6 +92,61 @@ def size_program(case):
         f"    %0 = memref.alloc({arg}) {{alignment = 64 : i64}} : {ty}\n"
         f'    "test.op"(%0) {{vtag = 1 : i64}} : ({ty}) -> ()\n    func.return\n  }}\n}}'
     )
+
+
+def size2_program(case):
+    tb = case["tb"]
+    shape = shape_of(tb)
+    dd = case["dyn_dims"]
+    sh = "x".join("?" if d in dd else str(x) for d, x in enumerate(shape))
+    lay = "" if case["kind"] == "none" else ", " + tsl_text(tb, case["steps"], case["off"], {(d, 0, "b") for d in dd})
+    ty = f'memref<{sh}x{case["el"]}{lay}, "L1">'
+    return (
+        "builtin.module {\n  func.func @f(%n0 : index, %n1 : index) {\n    %c0 = arith.constant 0 : index\n"
+        "    %d0 = arith.addi %n0, %c0 : index\n    %d1 = arith.addi %n1, %c0 : index\n"
+        f"    %0 = memref.alloc(%d0, %d1) {{alignment = 64 : i64}} : {ty}\n"
+        f'    "test.op"(%0) {{vtag = 1 : i64}} : ({ty}) -> ()\n    func.return\n  }}\n}}'
+    )
+
+
+def run_size2(case, out):
+    src = size2_program(case)
+    try:
+        ctx, mod = compat.parse(src)
+        compat.run_passes(ctx, mod, "memref-to-snax")
+    except Exception as e:
+        out["status"] = "rejected"
+        out["rejected"] = f"memref-to-snax:{type(e).__name__}"
+        return out
+    tb = [list(t) for t in case["tb"]]
+    for d, b in zip(case["dyn_dims"], case["dyn_bounds"]):
+        tb[d][0] = b
+    shape = shape_of(tb)
+    eb = EL[case["el"]]
+    if case["kind"] == "none":
+        need = eb
+        for x in shape:
+            need *= x
+    else:
+        need = max(address(idx, tb, case["steps"], case["off"]) for idx in all_indices(shape)) * eb + eb
+    m = AllocMachine(mod)
+    m.run_single("f", [shape[d] for d in case["dyn_dims"]], Core(0))
+    out["runs"] = out["zero_fault_runs"] = 1
+    if len(m.snax_allocs) != 1:
+        out["status"] = "rejected"
+        out["rejected"] = "memref-to-snax:alloc-not-converted"
+        return out
+    _, size, shapes, _ = m.snax_allocs[0]
+    if size < need:
+        out.update(status="violation", oracle="allocation-size", message=f"snax.alloc size operand evaluates to {size} bytes, the layout touches byte {need - 1} (needs {need})")
+        return out
+    if tuple(shapes) != tuple(shape):
+        out.update(status="violation", oracle="allocation-shape", message=f"snax.alloc shape operands {shapes} differ from the buffer shape {shape}")
+        return out
+    out["steps"] = m.steps
+    out["nontrivial"] = True
+    out["digest"] = digest_of(size, need)
+    return out
 
 
 def run_size(case, out):
@@ -223,6 +289,8 @@ def _walk(body):
 
 def execute(case):
     out = new_outcome()
+    if case["fam"] == "size2":
+        return run_size2(case, out)
     return run_size(case, out) if case["fam"] == "size" else run_place(case, out)
 
 
@@ -239,6 +307,8 @@ TRIGGERS = {"minimalloc_restarts_at_zero_in_every_function": _kf_c11_1}
 
 
 def shrink(case):
+    if case["fam"] == "size2":
+        return
     if case["fam"] == "size":
         if case["el"] != "i8":
             yield dict(case, el="i8")
@@ -257,6 +327,8 @@ def shrink(case):
 
 
 def sample_of(case):
+    if case["fam"] == "size2":
+        return {"family": "size (two dynamic dimensions)", "program": size2_program(case), "dyn_bounds": case["dyn_bounds"]}
     if case["fam"] == "size":
         return {"family": "size", "program": size_program(case), "dyn_bound": case["dyn_bound"]}
     return {"family": "place", "program": AG.emit(case["ast"], case["p"]), "conditions": case["p"], "mode": case["mode"], "window": case["window"], "solver_order": case["solver"]}
